@@ -181,7 +181,10 @@ const ODD_NUMBERS: [&str; 16] = [
   "(10 ** 6000) * (10 ** 6000) / ((10 ** 6000) * (10 ** 6000))",
 ];
 
-const ODD_CONTEXTS: [&str; 14] = [
+const ODD_CONTEXTS: [&str; 16] = [
+  // a function that invokes itself for ever (an entry of a context literal sees itself)
+  "{f: function(n) f(n + 1), s: string(f(1))}",
+  "{f: function(n) if n < 0 then 0 else 1 + f(n + 1), s: string(f(1))}",
   // values that exist but are out of the range of what the date library represents
   "{s: string(time(10, 0, 0, duration(\"PT99999H\")) = time(\"10:00:00Z\"))}",
   "{s: string(date and time(date(\"2021-01-01\"), time(10, 0, 0, duration(\"PT24H\"))) - date and time(\"2021-01-01T10:00:00Z\"))}",
@@ -1135,7 +1138,19 @@ fn worker_main(w: WorkerCtx, s: &'static Setup) {
             let seq = net.seq;
             net.log.push(format!("#{} worker {} PANIC in conn {} ({}): {}", seq, w.me, f.conn, f.label, record));
             net.counters.inc("handler.panics");
-            net.violations.push(viol("no-response", &format!("panic:{}", panic_site(&record)), seq, format!("`{}` is answered with a JSON document", f.label), format!("the handler panicked at {}", record)));
+            if record.contains(simrt::RECURSION_PROBE) {
+              // hook H6 ended a recursion through FEEL function bodies at its limit; without the probe the
+              // stack overflows and the whole service process aborts
+              net.violations.push(viol(
+                "unbounded-recursion",
+                "feel-function-invocation",
+                seq,
+                format!("`{}` is answered with a JSON document and the service goes on", f.label),
+                format!("function bodies nest deeper than {} invocations: nothing limits the recursion", simrt::RECURSION_LIMIT),
+              ));
+            } else {
+              net.violations.push(viol("no-response", &format!("panic:{}", panic_site(&record)), seq, format!("`{}` is answered with a JSON document", f.label), format!("the handler panicked at {}", record)));
+            }
           }
           finished.push(k);
           // whatever a real worker thread does after a panic, later requests meet the same shared data
@@ -2139,6 +2154,7 @@ impl Sim for C18 {
   fn child_setup(&self) {
     let _ = setup();
     simrt::install();
+    simrt::install_recursion_probe();
   }
   fn gen_plan(&self, seed: u64, run: u64, _tier: Tier) -> Value {
     let mut rng = Rng::new(derive(seed, "C18", run));
